@@ -1,31 +1,41 @@
 -------------------------------- MODULE BEDMC --------------------------------
 (* Export a transcript to BED12 in chromosome or chunk coordinates the way to_bed12 computes it, then decode.
    Invariant: the record satisfies the format's own invariants and decodes to the exported blocks / strand / CDS
-   bounds in that coordinate system.  Variant "chrom-start-in-chunk" is the code before its repair. *)
+   bounds in that coordinate system.  A chunk is a plus-strand window (offset) or a minus-strand window (mirror).
+   Variants: "chrom-start-in-chunk" is the code before its repair 3cbc31f; "genomic-blocks-in-chunk" takes sizes and
+   offsets from the chromosome blocks in every mode (right for every plus-strand window, wrong on a mirrored one).
+   The code writes the CHROMOSOME strand in every mode: on a minus-strand chunk that is the named deviation
+   RoundTripStrand refutes (cfg BEDMC_known) -- keyed finding bed:minus-chunk-keeps-chromosome-strand. *)
 EXTENDS BED, CDS, TLC
-CONSTANTS G, K, Variant
-VARIABLES ex, cds, off, rec
-vars == <<ex, cds, off, rec>>
+CONSTANTS G, K, Variant, MinusChunks
+VARIABLES ex, cds, off, mir, rec
+vars == <<ex, cds, off, mir, rec>>
 Layouts == {l \in LocsGK(G, K) : (\A i \in DOMAIN l[1] : BLen(l[1][i]) > 0) /\ ~SelfOverlap(l)}
 (* a CDS is summarised by its chromosome bounds: any pair of exon positions *)
 CdsChoices(l) == {EMPTY} \cup {c \in {<< <<<<p[1], p[2] + 1>>>>, St(l) >> : p \in PosSet(l) \X PosSet(l)} : c[1][1][1] < c[1][1][2]}
 NoRec == <<>>
-Init == /\ ex \in Layouts /\ cds \in CdsChoices(ex) /\ off = 0 /\ rec = NoRec
+Init == /\ ex \in Layouts /\ cds \in CdsChoices(ex) /\ off = 0 /\ mir = -1 /\ rec = NoRec
 (* the library's computation *)
-AlgoEncode(o) ==
-  LET bs == [i \in DOMAIN ex[1] |-> <<ex[1][i][1] - o, ex[1][i][2] - o>>]
+AlgoEncode(o, m) ==
+  LET bs == ChunkBlocks(ex[1], o, m)
       start == bs[1][1]
-      firstStart == IF Variant = "chrom-start-in-chunk" THEN ex[1][1][1] ELSE start IN
+      firstStart == IF Variant = "chrom-start-in-chunk" THEN ex[1][1][1] ELSE start
+      shape == IF Variant = "genomic-blocks-in-chunk" THEN [i \in DOMAIN ex[1] |-> <<ex[1][i][1] - ex[1][1][1] + start, ex[1][i][2] - ex[1][1][1] + start>>]
+               ELSE bs IN
   << "chrom", start, bs[Len(bs)][2], "n", 0, St(ex),
-     IF IsEmptyLoc(cds) THEN 0 ELSE MinStart(cds) - o, IF IsEmptyLoc(cds) THEN 0 ELSE MaxEnd(cds) - o, "0,0,0",
-     Len(bs), [i \in DOMAIN bs |-> bs[i][2] - bs[i][1]], [i \in DOMAIN bs |-> bs[i][1] - firstStart] >>
-ExportChromosome == rec = NoRec /\ rec' = AlgoEncode(0) /\ off' = 0 /\ UNCHANGED <<ex, cds>>
-ExportChunk(ws) == rec = NoRec /\ ws <= MinStart(ex) /\ rec' = AlgoEncode(ws) /\ off' = ws /\ UNCHANGED <<ex, cds>>
-Next == ExportChromosome \/ \E ws \in 0..G : ExportChunk(ws)
+     IF IsEmptyLoc(cds) THEN 0 ELSE ChunkLo(cds, o, m), IF IsEmptyLoc(cds) THEN 0 ELSE ChunkHi(cds, o, m), "0,0,0",
+     Len(bs), [i \in DOMAIN shape |-> shape[i][2] - shape[i][1]], [i \in DOMAIN shape |-> shape[i][1] - firstStart] >>
+ExportChromosome == rec = NoRec /\ rec' = AlgoEncode(0, -1) /\ off' = 0 /\ mir' = -1 /\ UNCHANGED <<ex, cds>>
+ExportChunk(ws) == rec = NoRec /\ ws <= MinStart(ex) /\ rec' = AlgoEncode(ws, -1) /\ off' = ws /\ mir' = -1 /\ UNCHANGED <<ex, cds>>
+ExportMinusChunk(we) == /\ MinusChunks /\ rec = NoRec /\ we >= MaxEnd(ex)
+                        /\ rec' = AlgoEncode(0, we) /\ off' = 0 /\ mir' = we /\ UNCHANGED <<ex, cds>>
+Next == ExportChromosome \/ (\E ws \in 0..G : ExportChunk(ws)) \/ (\E we \in 0..(G + 1) : ExportMinusChunk(we))
 Spec == Init /\ [][Next]_vars
 RecordValid == rec # NoRec => Valid(rec)
-RoundTrip == rec # NoRec => /\ Decode(rec)[1] = [i \in DOMAIN ex[1] |-> <<ex[1][i][1] - off, ex[1][i][2] - off>>]
-                            /\ Decode(rec)[2] = St(ex)
+RoundTrip == rec # NoRec => /\ Decode(rec)[1] = ChunkBlocks(ex[1], off, mir)
                             /\ (IsEmptyLoc(cds) => rec[7] = 0 /\ rec[8] = 0)
-                            /\ (~IsEmptyLoc(cds) => rec[7] = MinStart(cds) - off /\ rec[8] = MaxEnd(cds) - off)
+                            /\ (~IsEmptyLoc(cds) => rec[7] = ChunkLo(cds, off, mir) /\ rec[8] = ChunkHi(cds, off, mir))
+RoundTripStrand == rec # NoRec => Decode(rec)[2] = ChunkSt(St(ex), mir)
+(* the deviation, exactly: away from minus-strand chunks the strand column is right *)
+StrandRightOffMinusChunks == (rec # NoRec /\ mir < 0) => Decode(rec)[2] = St(ex)
 =============================================================================
